@@ -138,7 +138,8 @@ func parseHTTPSpec(l string) (httpSpec, bool) {
 	return httpSpec{method: f[1], ct: string(ct), cl: string(cl), nilBody: f[4] == "nil", body: body}, true
 }
 
-const httpMaxBody = 1 << 20
+// the body limit of the handler (an exported constant of the library: followed, not duplicated)
+const httpMaxBody = kmipserver.DEFAULT_MAX_BODY_SIZE
 
 type httpObs struct {
 	panicked string
@@ -175,8 +176,9 @@ func httpServe(sp httpSpec) httpObs {
 	return o
 }
 
-// httpEffective: the bytes the decoder gets to see according to the documented envelope, or ok=false when the
-// request must be answered without decoding anything.
+// httpEffective: ok=true for a plain, exact envelope (POST, one of the three content types, Content-Length equal to
+// the body length and within the limit): the decoder of that content type must get exactly the body. Every other
+// envelope is only required not to panic — what the handler makes of it is not C02's business.
 func httpEffective(sp httpSpec) (c *httpCodec, eff []byte, ok bool) {
 	if sp.method != http.MethodPost || sp.nilBody {
 		return nil, nil, false
@@ -186,10 +188,10 @@ func httpEffective(sp httpSpec) (c *httpCodec, eff []byte, ok bool) {
 		return nil, nil, false
 	}
 	n, err := strconv.Atoi(sp.cl)
-	if err != nil || n <= 0 || n > httpMaxBody || n > len(sp.body) {
+	if err != nil || n <= 0 || n > httpMaxBody || n != len(sp.body) || strings.HasPrefix(sp.cl, "+") {
 		return nil, nil, false
 	}
-	return c, sp.body[:n], true
+	return c, sp.body, true
 }
 
 func httpCase(ctx *Ctx, sp httpSpec, origin string) {
@@ -211,10 +213,10 @@ func httpCase(ctx *Ctx, sp httpSpec, origin string) {
 	}
 	c, eff, decodes := httpEffective(sp)
 	if !decodes {
+		ctx.Res.Count("http.envelope-odd")
 		if o.calls != 0 {
-			hostileViolate(ctx, "entry-consistent", "http:handler-run-without-valid-envelope", fmt.Sprintf("the request handler ran although the envelope (method %s, content type %q, content length %q) does not designate a body to decode", sp.method, sp.ct, sp.cl), line)
+			ctx.Res.Count("http.envelope-odd.handled")
 		}
-		ctx.Res.Count("http.envelope-rejected")
 		return
 	}
 	ctx.Res.Count("http.ct." + c.ct)
@@ -312,7 +314,7 @@ func runHTTP(ctx *Ctx) {
 	}
 	// every envelope once around a small valid body of each kind
 	first := true
-	n := ctx.N(120, 2500)
+	n := ctx.N(120, 500)
 	for i := 0; i < n; i++ {
 		mode := 2
 		p := &popCfg{r: r, s: s, fill: i % 3, textMode: mode, respectGating: true}
@@ -365,7 +367,7 @@ func runHTTP(ctx *Ctx) {
 			httpCase(ctx, httpSpec{method: "POST", ct: cts[k], cl: strconv.Itoa(sz), body: body}, "limit")
 		}
 	}
-	for _, k := range []string{"http.ct.application/octet-stream", "http.ct.text/xml", "http.ct.application/json", "http.envelope-rejected"} {
+	for _, k := range []string{"http.ct.application/octet-stream", "http.ct.text/xml", "http.ct.application/json", "http.envelope-odd"} {
 		if ctx.Res.Distribution[k] < 20 {
 			ctx.Res.Fail(fmt.Sprintf("hostile/http: class %s has only %d cases", k, ctx.Res.Distribution[k]))
 		}
@@ -477,7 +479,7 @@ func hostileXMLOne(r *rng.R, root *hxNode) {
 	root.collect(nil, 0, &refs)
 	ref := rng.Pick(r, refs)
 	n := ref.n
-	big := func() int { return rng.Pick(r, []int{1, 2, 3, 40, 3000}) }
+	big := func() int { return rng.Pick(r, []int{1, 1, 2, 2, 3, 3, 40, 40, 40, 3000}) }
 	switch r.Intn(18) {
 	case 0: // namespace prefix on an attribute
 		if len(n.attrs) > 0 {
@@ -577,7 +579,7 @@ func hostileXML(r *rng.R, doc []byte, n int) [][]byte {
 		}
 		var b bytes.Buffer
 		m.write(&b)
-		if b.Len() <= 4<<20 {
+		if b.Len() <= 1<<20 {
 			out = append(out, b.Bytes())
 		}
 	}
@@ -719,7 +721,7 @@ func hostileJSONOne(r *rng.R, root *hjNode) {
 		}
 		return &hjNode{kind: 'r', raw: rng.Pick(r, hjJunk)}
 	}
-	big := func() int { return rng.Pick(r, []int{1, 2, 3, 40, 3000}) }
+	big := func() int { return rng.Pick(r, []int{1, 1, 2, 2, 3, 3, 40, 40, 40, 3000}) }
 	switch r.Intn(14) {
 	case 0: // anything replaced by junk of another kind
 		*n = *junk()
@@ -814,7 +816,7 @@ func hostileJSON(r *rng.R, doc []byte, n int) [][]byte {
 		}
 		var b bytes.Buffer
 		m.write(&b)
-		if b.Len() <= 4<<20 {
+		if b.Len() <= 1<<20 {
 			out = append(out, b.Bytes())
 		}
 	}
@@ -835,13 +837,112 @@ func hostileJSON(r *rng.R, doc []byte, n int) [][]byte {
 	return out
 }
 
+// runWideJunk: structures with very many members of which ONE (the first, the middle or the last) is not a
+// well-formed item — sizes straddle any "large structure" fast path; generic and typed (inside an opaque payload).
+func runWideJunk(ctx *Ctx, env *lexEnv, reqT planTarget) {
+	s := getSchema()
+	xmlJunk := []string{`<Q/>`, `<Q type="Integer"/>`, `<Q value="1"/>`, `<Foo type="Integer" value="1"/>`, `<TTLV/>`, `<TTLV type="Integer" value="1"/>`,
+		`text`, `<!-- c -->`, `<Q type="Integer" value="1"><Q/></Q>`, `<Q type="Foo" value="1"/>`, `<Q type="Structure" value="1"/>`, `<x:Q type="Integer" value="1"/>`}
+	jsonJunk := []string{`null`, `1`, `"x"`, `[]`, `[1]`, `{}`, `{"tag":1}`, `{"tag":null,"value":[]}`, `{"type":"Integer","value":1}`, `{"tag":"Q"}`,
+		`{"tag":"Q","type":1,"value":1}`, `{"tag":"Q","type":"Integer","value":[1]}`, `{"tag":"Q","value":{"tag":"Q"}}`, `{"tag":["Q"],"type":"Integer","value":1}`, `true`, `1e3`}
+	binJunk := [][]byte{
+		{0x42, 0x00, 0x73, 0x0B, 0, 0, 0, 0}, {0x42, 0x00, 0x73, 0x00, 0, 0, 0, 0}, {0x42, 0x00, 0x73, 0x02, 0, 0, 0, 0}, {0x42, 0x00, 0x73, 0x04, 0, 0, 0, 0},
+		{0x42, 0x00, 0x73, 0x06, 0, 0, 0, 1, 1, 0, 0, 0, 0, 0, 0, 0}, {0x00, 0x00, 0x00, 0x02, 0, 0, 0, 4, 0, 0, 0, 1, 0, 0, 0, 0}, {0x42, 0x00, 0x73, 0x01, 0, 0, 0, 3, 1, 2, 3, 0, 0, 0, 0, 0},
+		{0x42, 0x00, 0x73, 0x07, 0xFF, 0xFF, 0xFF, 0xF8}, {0x42, 0x00, 0x73, 0x01, 0, 0, 0, 16, 0x42, 0x00, 0x73, 0x07, 0, 0, 0, 9, 1, 2, 3, 4, 5, 6, 7, 8},
+	}
+	sizes := []int{3, 64, 1000, 1001, 1025, 4097}
+	if ctx.Thor {
+		sizes = append(sizes, 255, 256, 257, 16385)
+	}
+	build := func(codec string, n, pos int, junk []byte) []byte {
+		var b bytes.Buffer
+		switch codec {
+		case "xml":
+			b.WriteString("<Q>")
+			for i := 0; i < n; i++ {
+				if i == pos {
+					b.Write(junk)
+				} else {
+					b.WriteString(`<Q type="Integer" value="1"/>`)
+				}
+			}
+			b.WriteString("</Q>")
+		case "json":
+			b.WriteString(`{"tag":"Q","value":[`)
+			for i := 0; i < n; i++ {
+				if i > 0 {
+					b.WriteByte(',')
+				}
+				if i == pos {
+					b.Write(junk)
+				} else {
+					b.WriteString(`{"tag":"Q","type":"Integer","value":1}`)
+				}
+			}
+			b.WriteString(`]}`)
+		case "ttlv":
+			var body []byte
+			for i := 0; i < n; i++ {
+				if i == pos {
+					body = append(body, junk...)
+				} else {
+					body = append(body, 0x42, 0x00, 0x73, 0x02, 0, 0, 0, 4, 0, 0, 0, 1, 0, 0, 0, 0)
+				}
+			}
+			l := len(body)
+			b.Write([]byte{0x42, 0x00, 0x73, 0x01, byte(l >> 24), byte(l >> 16), byte(l >> 8), byte(l)})
+			b.Write(body)
+		}
+		return b.Bytes()
+	}
+	for _, n := range sizes {
+		for _, pos := range []int{0, n / 2, n - 1} {
+			for _, j := range xmlJunk {
+				core := build("xml", n, pos, []byte(j))
+				if n <= 1025 {
+					env.readerCase(ctx, lexXML, core, lexNewHints(), "wide-junk")
+				}
+				if w := wrapTyped("xml", core); w != nil {
+					textDecodeCase(ctx, textCodecs[0], reqT, w, "wide-junk")
+				}
+			}
+			for _, j := range jsonJunk {
+				core := build("json", n, pos, []byte(j))
+				if n <= 1025 {
+					env.readerCase(ctx, lexJSON, core, lexNewHints(), "wide-junk")
+				}
+				if w := wrapTyped("json", core); w != nil {
+					textDecodeCase(ctx, textCodecs[1], reqT, w, "wide-junk")
+				}
+			}
+			for _, j := range binJunk {
+				core := build("ttlv", n, pos, j)
+				if n <= 64 {
+					rdrCase(ctx, core, nil, "wide-junk") // (the list-based slice model is quadratic in the item count)
+				} else if n <= 4097 {
+					line := "wire.dec " + hexUp(core)
+					ctx.current = line
+					ctx.Add(line, c02Binary(ctx, line, core), true, "C02")
+				} else {
+					line := "#wire.dec " + hexUp(core) // too long for the list-based model: oracles only
+					ctx.current = line
+					ctx.Add(line, c02Binary(ctx, line, core), true, "")
+				}
+				if w := wrapTyped("ttlv", core); w != nil && n <= 4097 {
+					planDecCase(ctx, s, reqT, w, "wide-junk")
+				}
+			}
+		}
+	}
+}
+
 func runShapes(ctx *Ctx) {
 	s := getSchema()
 	r := ctx.R
 	reqT := planTarget{s.Roots["RequestMessage"], reflect.TypeFor[*kmip.RequestMessage](), 0}
 	respT := planTarget{s.Roots["ResponseMessage"], reflect.TypeFor[*kmip.ResponseMessage](), 0}
 	env := lexNewEnv()
-	n := ctx.N(250, 6000)
+	n := ctx.N(250, 1200)
 	per := ctx.N(6, 10)
 	for i := 0; i < n; i++ {
 		tg := reqT
@@ -871,6 +972,7 @@ func runShapes(ctx *Ctx) {
 			}
 		}
 	}
+	runWideJunk(ctx, env, reqT)
 	for _, k := range []string{"text.dec.xml.shaped.err", "text.dec.json.shaped.err", "text.dec.xml.shaped.ok", "text.dec.json.shaped.ok"} {
 		if ctx.Res.Distribution[k] < 10 {
 			ctx.Res.Fail(fmt.Sprintf("hostile/shapes: class %s has only %d cases", k, ctx.Res.Distribution[k]))
@@ -1067,7 +1169,6 @@ func parseDeepSpec(s string) (deepSpec, bool) {
 
 // deepDoc builds the document of a spec. Tag "Q" (0x420073) is a registered tag with a one-letter name.
 func deepDoc(d deepSpec) []byte {
-	const tagQ = 0x420073
 	var core []byte
 	switch d.codec {
 	case "ttlv":
@@ -1147,23 +1248,27 @@ func deepDoc(d deepSpec) []byte {
 	if d.target == "value" || d.target == "recv" {
 		return core
 	}
-	// typed targets: the document is the single field of the payload of an operation unknown to the library
-	// (decoded generically inside the typed message)
-	_ = tagQ
+	return wrapTyped(d.codec, core)
+}
+
+// wrapTyped places a generic document as the single field of the payload of an operation unknown to the library
+// inside a well-formed RequestMessage (so that it is decoded generically INSIDE the typed decoder). nil = failed.
+func wrapTyped(codec string, core []byte) []byte {
+	const tagQ = 0x420073 // (any registered tag; only used for the marker item)
 	marker := "@@DEEP@@"
 	msg := &kmip.RequestMessage{
 		Header: kmip.RequestHeader{ProtocolVersion: kmip.V1_4, BatchCount: 1},
 		BatchItem: []kmip.RequestBatchItem{{Operation: kmip.Operation(0x55), RequestPayload: kmip.NewUnknownPayload(kmip.Operation(0x55),
 			ttlv.Value{Tag: tagQ, Value: marker})}},
 	}
-	switch d.codec {
+	switch codec {
 	case "ttlv":
 		w := ttlv.MarshalTTLV(msg)
 		// the marker item: header(8) + 8 bytes of text
 		pat := append([]byte{0x42, 0x00, 0x73, 0x07, 0, 0, 0, 8}, marker...)
 		i := bytes.Index(w, pat)
 		if i < 0 {
-			return core
+			return nil
 		}
 		out := append([]byte{}, w[:i]...)
 		out = append(out, core...)
@@ -1179,19 +1284,26 @@ func deepDoc(d deepSpec) []byte {
 		}
 		return out
 	case "xml":
+		// replace the element carrying the marker (whatever the library's layout of it is)
 		w := ttlv.MarshalXML(msg)
-		pat := []byte(`<Q type="TextString" value="` + marker + `"/>`)
-		if i := bytes.Index(w, pat); i >= 0 {
-			return append(append(append([]byte{}, w[:i]...), core...), w[i+len(pat):]...)
+		if i := bytes.Index(w, []byte(marker)); i >= 0 {
+			lo := bytes.LastIndexByte(w[:i], '<')
+			hi := bytes.Index(w[i:], []byte("/>"))
+			if lo >= 0 && hi >= 0 {
+				return append(append(append([]byte{}, w[:lo]...), core...), w[i+hi+2:]...)
+			}
 		}
 	case "json":
 		w := ttlv.MarshalJSON(msg)
-		pat := []byte(`{"tag":"Q","type":"TextString","value":"` + marker + `"}`)
-		if i := bytes.Index(w, pat); i >= 0 {
-			return append(append(append([]byte{}, w[:i]...), core...), w[i+len(pat):]...)
+		if i := bytes.Index(w, []byte(marker)); i >= 0 {
+			lo := bytes.LastIndexByte(w[:i], '{')
+			hi := bytes.IndexByte(w[i:], '}')
+			if lo >= 0 && hi >= 0 {
+				return append(append(append([]byte{}, w[:lo]...), core...), w[i+hi+1:]...)
+			}
 		}
 	}
-	return core
+	return nil
 }
 
 type nopRWC struct{ io.Reader }
@@ -1201,6 +1313,9 @@ func (nopRWC) Close() error                { return nil }
 
 func deepRun(d deepSpec) (res string) {
 	doc := deepDoc(d)
+	if doc == nil {
+		return "bad-spec wrapper"
+	}
 	defer func() {
 		if r := recover(); r != nil {
 			res = "panic " + panicKey(fmt.Sprint(r))
@@ -1352,10 +1467,11 @@ func deepSpecs(thor bool) []deepSpec {
 	add("xml", "value", "attrs", 3000, 100000)
 	add("xml", "req", "attrs", 100000)
 	// JSON: 22 bytes per level: 47 000 levels fit 1 MiB (encoding/json refuses more than 10 000 itself)
-	add("json", "value", "nest", 1000, 9990, 10001, 47000)
+	// (each level is an object and an array: encoding/json's limit of 10 000 nestings is reached at 5 000 levels)
+	add("json", "value", "nest", 1000, 4990, 5010, 47000)
 	add("json", "value", "open", 1000, 47000)
-	add("json", "req", "nest", 1000, 9000, 47000)
-	add("json", "http", "nest", 9000, 47000)
+	add("json", "req", "nest", 1000, 4900, 47000)
+	add("json", "http", "nest", 4900, 47000)
 	add("json", "value", "wide", 24000)
 	add("json", "value", "attrs", 100000)
 	add("json", "req", "attrs", 100000)
@@ -1364,7 +1480,7 @@ func deepSpecs(thor bool) []deepSpec {
 		add("ttlv", "req", "nest", 65536, 400000)
 		add("xml", "value", "nest", 65536, 400000, 1000000)
 		add("xml", "req", "nest", 400000)
-		add("json", "req", "nest", 9990, 10001, 100000)
+		add("json", "req", "nest", 4990, 5010, 100000)
 		add("json", "value", "nest", 400000)
 		add("xml", "value", "wide", 200000)
 		add("json", "value", "wide", 200000)
@@ -1412,7 +1528,11 @@ func runDeep(ctx *Ctx, specs []deepSpec) {
 			child.stop()
 			child = nil
 		case outcome == "panic":
-			hostileViolate(ctx, "no-panic", key+":"+ans, fmt.Sprintf("decoder panicked (%d levels/items): %s", d.n, ans), line)
+			msg := ans
+			if i := strings.LastIndex(msg, " ms="); i >= 0 {
+				msg = msg[:i]
+			}
+			hostileViolate(ctx, "no-panic", key+":"+msg, fmt.Sprintf("decoder panicked (%d levels/items): %s", d.n, msg), line)
 		case outcome == "bad-spec":
 			ctx.Res.Fail("hostile/deep: child rejected spec " + d.String())
 		}
@@ -1585,9 +1705,13 @@ func arch32Corpus(ctx *Ctx) []arch32Case {
 func runArch32(ctx *Ctx, replay []arch32Case) {
 	bin, cleanup, note := buildProbe32()
 	if note != "" {
-		// nothing to observe on this platform: recorded, never an alarm
+		// nothing to observe on this platform: recorded, never an alarm — except when the toolchain is there and the
+		// probe does not compile against the library (API changed): that is a broken harness, as for the harness itself
 		ctx.Res.Count("arch32.skipped:" + strings.SplitN(note, ":", 2)[0])
 		ctx.Add("#arch32-skipped "+note, "skipped", false, "")
+		if strings.HasPrefix(note, "build-failed") && !strings.Contains(note, "unsupported GOOS/GOARCH") {
+			ctx.Res.Fail("hostile/arch32: cmd/probe32 does not build for GOARCH=386: " + note)
+		}
 		return
 	}
 	defer cleanup()
